@@ -15,12 +15,15 @@ t=$(echo "$cmd" | grep -o -- '--test [a-z0-9_]*' | head -1 | cut -d' ' -f2)
 first=$(echo "$cmd" | grep -o 'cargo test[^#&;]*' | head -1)
 flags=""
 if echo "$first" | grep -q -- "--no-default-features"; then flags="--no-default-features --features math_funcs"; elif echo "$first" | grep -q -- "--features serde"; then flags="--features serde"; fi
+rf=$(echo "$cmd" | grep -o 'RUSTFLAGS="[^"]*"' | head -1 | sed 's/RUSTFLAGS="//; s/"$//')
+if [ -n "$rf" ]; then export RUSTFLAGS="$rf"; export CARGO_TARGET_DIR=$W/target-rf; fi
 cp $S/demo.rs tests/$t.rs
 cargo test --offline $flags --test $t > /tmp/sw/$id.clean.log 2>&1; clean=$?
 applies=0; git apply $S/patch.diff 2>/tmp/sw/$id.apply.log || applies=1
 if [ $applies = 0 ]; then
   cargo test --offline $flags --test $t > /tmp/sw/$id.patched.log 2>&1; patched=$?
   rm tests/$t.rs
+  unset RUSTFLAGS; unset CARGO_TARGET_DIR
   cargo build --offline --no-default-features --features math_funcs >/dev/null 2>&1; b1=$?
   cargo build --offline --features serde >/dev/null 2>&1; b2=$?
   cargo test --workspace --no-fail-fast --offline > /tmp/sw/$id.suite.log 2>&1; suite=$?
@@ -29,7 +32,7 @@ else patched=-1; b1=-1; b2=-1; suite=-1; npass=""; fi
 cd /verif
 python3 - <<PY
 import json
-json.dump({"id":"$id","patch_applies_to_head":$applies==0,"demo_passes_without_patch":$clean==0,"demo_fails_with_patch":$patched not in (0,-1),"builds_nostd":$b1==0,"builds_serde":$b2==0,"suite_passes_with_patch":$suite==0,"suite_pass_fail":"$npass","demo_test":"$t","demo_flags":"$flags","repo_head":"$(git -C /repo rev-parse --short HEAD)"},open("$S/confirm.json","w"),indent=1)
+json.dump({"id":"$id","patch_applies_to_head":$applies==0,"demo_passes_without_patch":$clean==0,"demo_fails_with_patch":$patched not in (0,-1),"builds_nostd":$b1==0,"builds_serde":$b2==0,"suite_passes_with_patch":$suite==0,"suite_pass_fail":"$npass","demo_test":"$t","demo_flags":"$flags $rf","repo_head":"$(git -C /repo rev-parse --short HEAD)"},open("$S/confirm.json","w"),indent=1)
 PY
 git -C /repo worktree remove --force $W
 cat $S/confirm.json | tr '\n' ' '; echo
